@@ -13,7 +13,7 @@ import (
 	"verifharness/internal/corr"
 )
 
-var keysPool = []string{"k0", "k1", "note.read", "k0x"}
+var keysPool = []string{"k0", "k1", "note.read", "k0x", "k0-old", "old-k0", "k0-"}
 
 // Run is the correspondence + oracle driver of area kv.
 func Run(r *corr.Run) {
@@ -156,15 +156,24 @@ func (c *cases) genMutators() {
 		old := c.valid("w", d, "k0", c.nextTs(), recAdd)
 		base := c.valid("w", d, "k0", c.nextTs(), recAdd)
 		mut := c.mutate(m, base)
+		// honest values of keys that share a prefix / suffix with the victim key, same device: their slots
+		// are what a partial slot comparison would confuse with the victim's
+		longer := c.valid("w", d, "k0-old", old.ts-10, recAdd)
+		shorter := c.valid("w", d, "k", old.ts-11, recAdd)
+		sfx := c.valid("w", d, "old-k0", old.ts-12, recAdd)
 		n1 := c.valid("o", c.dev("o", 0), "k1", c.nextTs(), recPromote)
 		n2 := c.valid("o", c.dev("o", 1), "k1", c.nextTs(), recRoot)
-		for variant := 0; variant < 3; variant++ {
+		for variant := 0; variant < 4; variant++ {
 			s := c.newSut(c.anyWriterStoreOwner())
 			switch variant {
 			case 0:
 				c.raw(s, "raw", fault{}, []*rawValue{mut})
 			case 1:
 				c.raw(s, c.path(), fault{}, []*rawValue{n1, mut, n2})
+			case 3:
+				c.raw(s, "raw", fault{}, []*rawValue{longer, shorter, sfx, old})
+				c.raw(s, c.path(), fault{}, []*rawValue{mut})
+				c.raw(s, "raw", fault{}, []*rawValue{n1, mut, base})
 			case 2:
 				c.raw(s, "raw", fault{}, []*rawValue{old})
 				c.raw(s, c.path(), fault{}, []*rawValue{mut, n1})
